@@ -5,9 +5,9 @@
  * The contract is enforced on the real body by job C03.addLinkImprint (there against a byte-recording hasher). */
 static int dataHasher_addLinkImprint(KSI_CTX *ctx, KSI_DataHasher *hsr, const KSI_HashChainLink *link)
 __CPROVER_requires(ctx != NULL && hsr == (KSI_DataHasher *)g_hasher_obj && g_hasher_live && link == &g_link)
-__CPROVER_ensures(IMPLIES(__CPROVER_return_value == KSI_OK, g_feed == __CPROVER_old(g_feed) * 4 + SPEC_FEED_SIBLING && g_env_failed == __CPROVER_old(g_env_failed)))
-__CPROVER_ensures(IMPLIES(__CPROVER_return_value != KSI_OK, g_feed == __CPROVER_old(g_feed) && g_env_failed == 1))
-__CPROVER_assigns(g_feed, g_env_failed);
+__CPROVER_ensures(IMPLIES(__CPROVER_return_value == KSI_OK, !g_link_bad && g_feed == __CPROVER_old(g_feed) * 4 + SPEC_FEED_SIBLING && IMPLIES(g_env_failed, __CPROVER_old(g_env_failed))))
+__CPROVER_ensures(IMPLIES(__CPROVER_return_value != KSI_OK, g_feed == __CPROVER_old(g_feed) && (g_env_failed || g_link_bad)))
+__CPROVER_assigns(g_feed, g_env_failed, g_last_add_ptr, g_last_add_len, g_ser_buf, g_ser_len, g_ser_opt);
 
 static int aggregateChain(KSI_CTX *ctx, KSI_LIST(KSI_HashChainLink) *chain, const KSI_DataHash *inputHash, int startLevel, KSI_HashAlgorithm aggr_algo_id, int isCalendar, int *endLevel, KSI_DataHash **outputHash)
 __CPROVER_requires(ctx != NULL && chain != NULL && inputHash == (const KSI_DataHash *)g_input_hash_obj)
@@ -23,7 +23,7 @@ __CPROVER_ensures(IMPLIES(__CPROVER_return_value == KSI_OK && g_len > 0, g_hash_
 __CPROVER_ensures(IMPLIES(__CPROVER_return_value == KSI_OK && g_len == 0, !g_hash_live))
 /* rejected  =>  the reference rejects (level / correction out of range) or the environment failed */
 __CPROVER_ensures(IMPLIES(__CPROVER_return_value != KSI_OK,
-	(g_ref.rejected || g_env_failed) && !g_hash_live && *outputHash == __CPROVER_old(*outputHash) && *endLevel == __CPROVER_old(*endLevel)))
+	(g_ref.rejected || g_env_failed || g_link_bad) && !g_hash_live && *outputHash == __CPROVER_old(*outputHash) && *endLevel == __CPROVER_old(*endLevel)))
 /* never leaks the hasher */
 __CPROVER_ensures(!g_hasher_live)
-__CPROVER_assigns(*endLevel, *outputHash, g_calls, g_link, g_lc, g_link_algo, g_ref, g_hasher_live, g_hasher_algo, g_feed, g_level_byte, g_hash_live, g_env_failed);
+__CPROVER_assigns(*endLevel, *outputHash, g_calls, g_link, g_lc, g_link_algo, g_ref, g_hasher_live, g_hasher_algo, g_feed, g_level_byte, g_hash_live, g_env_failed, g_link_bad, g_last_add_ptr, g_last_add_len, g_ser_buf, g_ser_len, g_ser_opt);
